@@ -84,23 +84,26 @@ Definition af_row (k : nat) (w : N) (bytes : list N) : option (list N * list N) 
       end
   end.
 
-(* big-endian whole-byte header fields *)
-Definition af_u (n : nat) (bytes : list N) : option (N * list N) :=
-  match take_n n bytes with
-  | Some (f, r) => Some (be_value f, r)
-  | None => None
-  end.
-
-Fixpoint af_us (widths : list nat) (bytes : list N) : option (list N * list N) :=
+(* header: items of 32 or 16 bits (widths given in bytes); the header ends on a byte boundary *)
+Fixpoint af_hfields (widths : list nat) (bs : list bool) : option (list N) :=
   match widths with
-  | [] => Some ([], bytes)
-  | w :: t => match af_u w bytes with
+  | [] => Some []
+  | w :: t => match af_field (8 * w) bs 0 with
               | None => None
-              | Some (v, r) => match af_us t r with
-                               | Some (vs, r') => Some (v :: vs, r')
+              | Some (v, r) => match af_hfields t r with
+                               | Some vs => Some (v :: vs)
                                | None => None
                                end
               end
+  end.
+
+Definition af_us (widths : list nat) (bytes : list N) : option (list N * list N) :=
+  match take_n (fold_right Nat.add 0%nat widths) bytes with
+  | None => None
+  | Some (h, r) => match af_hfields widths (af_bits h) with
+                   | Some vs => Some (vs, r)
+                   | None => None
+                   end
   end.
 
 (* split a flat list by counts *)
@@ -110,6 +113,21 @@ Fixpoint af_split (counts : list N) (l : list N) : list (list N) :=
   | c :: t => firstn (N.to_nat c) l :: af_split t (skipn (N.to_nat c) l)
   end.
 Definition af_sum (l : list N) : N := fold_left N.add l 0.
+
+(* per-page / per-group entries from the rows *)
+Fixpoint af_zip_page (a b c : list N) (d e : list (list N)) (f g : list N) : list hp_entry :=
+  match a, b, c, d, e, f, g with
+  | a1 :: a', b1 :: b', c1 :: c', d1 :: d', e1 :: e', f1 :: f', g1 :: g' =>
+      {| pe_nobjects_delta := a1; pe_length_delta := b1; pe_nshared := c1; pe_identifiers := d1;
+         pe_numerators := e1; pe_content_offset_delta := f1; pe_content_length_delta := g1 |} :: af_zip_page a' b' c' d' e' f' g'
+  | _, _, _, _, _, _, _ => []
+  end.
+
+Fixpoint af_zip_shared (a b c : list N) : list hs_entry :=
+  match a, b, c with
+  | a1 :: a', b1 :: b', c1 :: c' => {| se_length_delta := a1; se_signature := b1; se_nobjects_m1 := c1 |} :: af_zip_shared a' b' c'
+  | _, _, _ => []
+  end.
 
 (* Table F.3 + F.4. npages comes from /N. Returns the table and the remaining bytes. *)
 Definition af_decode_page_table (npages : nat) (bytes : list N) : option (hp_table * list N) :=
@@ -126,18 +144,11 @@ Definition af_decode_page_table (npages : nat) (bytes : list N) : option (hp_tab
       match af_row npages i9 r6 with None => None | Some (clen, r7) =>
         let idl := af_split nsh ids in
         let numl := af_split nsh nums in
-        let fix mk (a b c : list N) (d e : list (list N)) (f g : list N) : list hp_entry :=
-            match a, b, c, d, e, f, g with
-            | a1 :: a', b1 :: b', c1 :: c', d1 :: d', e1 :: e', f1 :: f', g1 :: g' =>
-                {| pe_nobjects_delta := a1; pe_length_delta := b1; pe_nshared := c1; pe_identifiers := d1;
-                   pe_numerators := e1; pe_content_offset_delta := f1; pe_content_length_delta := g1 |} :: mk a' b' c' d' e' f' g'
-            | _, _, _, _, _, _, _ => []
-            end in
         Some ({| hp_min_nobjects := i1; hp_first_page_offset := i2; hp_bits_nobjects := i3; hp_min_length := i4;
                  hp_bits_length := i5; hp_min_content_offset := i6; hp_bits_content_offset := i7;
                  hp_min_content_length := i8; hp_bits_content_length := i9; hp_bits_nshared := i10;
                  hp_bits_identifier := i11; hp_bits_numerator := i12; hp_denominator := i13;
-                 hp_entries := mk nobj lens nsh idl numl coff clen |}, r7)
+                 hp_entries := af_zip_page nobj lens nsh idl numl coff clen |}, r7)
       end end end end end end end
   | _ => None
   end.
@@ -152,13 +163,8 @@ Definition af_decode_shared_table (bytes : list N) : option (hs_table * list N) 
       match af_row n 1 r1 with None => None | Some (sigs, r2) =>
       match take_n (16 * N.to_nat (af_sum sigs)) r2 with None => None | Some (_, r3) =>
       match af_row n i5 r3 with None => None | Some (nobj, r4) =>
-        let fix mk (a b c : list N) : list hs_entry :=
-            match a, b, c with
-            | a1 :: a', b1 :: b', c1 :: c' => {| se_length_delta := a1; se_signature := b1; se_nobjects_m1 := c1 |} :: mk a' b' c'
-            | _, _, _ => []
-            end in
         Some ({| hs_first_obj := i1; hs_first_offset := i2; hs_nfirst := i3; hs_ntotal := i4; hs_bits_nobjects := i5;
-                 hs_min_length := i6; hs_bits_length := i7; hs_entries := mk lens sigs nobj |}, r4)
+                 hs_min_length := i6; hs_bits_length := i7; hs_entries := af_zip_shared lens sigs nobj |}, r4)
       end end end end
   | _ => None
   end.
